@@ -88,7 +88,7 @@ class Checker(C.BaseChecker):
             objs = [o for o in S["objects"] if o["ep"] == ep]
             # --- description present ---
             if ent is None or ent["jsonschema"] is None or ent["compat"] is None:
-                self.report(st, f"c20:description-missing:{phase}", f"objects of {ep} stored ({[o['path'] for o in objs][:2]}) but schemas/{ep} lacks jsonschema.json/compat: {ent and ent['members']}", F_REG)
+                self.report(st, "c20:description-missing", f"objects of {ep} stored ({[o['path'] for o in objs][:2]}) but schemas/{ep} lacks jsonschema.json/compat: {ent and ent['members']}", F_REG)
                 continue
             try:
                 emb = json.loads(ent["jsonschema"].decode("utf-8"))
@@ -97,7 +97,7 @@ class Checker(C.BaseChecker):
                 continue
             prov = [(pk, pe["json"]) for pk, pe in S["packages"].items() if pe["json"] is not None and C._pkg_provides(pe["json"], name, ver)]
             if not prov:
-                self.report(st, f"c20:provider-record-missing:{phase}", f"objects of {ep} stored but no package record lists it; records: {sorted(S['packages'])}", F_PKG + F_REG)
+                self.report(st, "c20:provider-record-missing", f"objects of {ep} stored but no package record lists it; records: {sorted(S['packages'])}", F_PKG + F_REG)
             else:
                 self.ok()
                 for pk, pj in prov:
@@ -181,12 +181,12 @@ class Checker(C.BaseChecker):
             api_pk = {C._pkg_ep(k): json.loads(v.json()) for k, v in ts.packages.items()}
             stored_pk = {pk: pe["json"] for pk, pe in S["packages"].items()}
             if api_pk != stored_pk:
-                self.report(st, f"c20:packages-api!=stored:{phase}", f"toc.schemas.packages reports {sorted(api_pk)}, stored records {sorted(stored_pk)} (or contents differ)", F_API)
+                self.report(st, "c20:packages-api!=stored", f"toc.schemas.packages reports {sorted(api_pk)}, stored records {sorted(stored_pk)} (or contents differ)", F_API)
             else:
                 self.ok()
             api_keys = sorted(C.ref_ep(r) for r in ts.keys())
             if api_keys != used:
-                self.report(st, f"c20:schemas-api!=used:{phase}", f"toc.schemas.keys() = {api_keys}, schemas of stored objects: {used}", F_API + F_REG)
+                self.report(st, "c20:schemas-api!=used", f"toc.schemas.keys() = {api_keys}, schemas of stored objects: {used}", F_API + F_REG)
             else:
                 self.ok()
         except Exception as e:  # noqa
@@ -217,7 +217,7 @@ class Checker(C.BaseChecker):
 
 RULE = (
     "same histories as C06 (scripted sweep attaching EVERY generated instance of EVERY installed and harness-registered schema on dataset, group and root, "
-    "copy/move/delete/reopen/patch boundary; exhaustive bounded searches over three pruned alphabets; seeded random walks over all families; h5py.File and IH5Record); "
+    "copy/move/delete/reopen/patch boundary; exhaustive bounded searches over the three pruned alphabets toggle/tree/general of the C06 driver; seeded random walks over all families; h5py.File and IH5Record); "
     "after every operation and after reopen every metadata object found in the RAW tree is validated (jsonschema draft-07) against the embedded schema and the embedded "
     "description is compared with the plugin system and with the TOC API. A case is (driver, abstract state before, operation); non-trivial iff metadata objects are stored or the operation is attach/detach."
 )
